@@ -1642,18 +1642,21 @@ class BitMaskedArrayType(ContentType):
         atval = regularize_atval(
             context, builder, viewproxy, attype, atval, wrapneg, checkbounds
         )
-        bitatval = builder.sdiv(atval, context.get_constant(numba.intp, 8))
+        # the bit of item 'atval' of a view starting at 'start' is bit
+        # number start + atval of the mask
+        bitnumber = builder.add(viewproxy.start, atval)
+        bitatval = builder.sdiv(bitnumber, context.get_constant(numba.intp, 8))
         shiftval = ak._connect._numba.castint(
             context,
             builder,
             numba.intp,
             numba.uint8,
-            builder.srem(atval, context.get_constant(numba.intp, 8)),
+            builder.srem(bitnumber, context.get_constant(numba.intp, 8)),
         )
 
         maskpos = posat(context, builder, viewproxy.pos, self.MASK)
         maskptr = getat(context, builder, viewproxy.arrayptrs, maskpos)
-        maskarraypos = builder.add(viewproxy.start, bitatval)
+        maskarraypos = bitatval
         byte = getat(
             context, builder, maskptr, maskarraypos, rettype=self.masktype.dtype
         )
